@@ -18,6 +18,7 @@ import (
 	"bufio"
 	"encoding/json"
 	"fmt"
+	"hash/fnv"
 	"os"
 	"runtime"
 	"sync"
@@ -146,7 +147,10 @@ func build(raw json.RawMessage) *built {
 	if err := json.Unmarshal(raw, F); err != nil {
 		vio.Fatal(fmt.Errorf("bad abstract font: %v", err))
 	}
-	font, id := subx.Build(F)
+	canon, _ := json.Marshal(F) // the same realisation however the case file is formatted
+	h := fnv.New32a()
+	h.Write(canon)
+	font, id := subx.Build(F, h.Sum32()^uint32(vio.Seed()*2654435761))
 	// identify outlines also in the form they take after Write + Read of the unsubsetted font
 	if g, st, _ := subx.WriteRead(font); st == "ok" {
 		subx.Learn(id, F, g)
